@@ -191,7 +191,7 @@ const multiGen = "interleaved histories on 2-4 ledgers — up to three sharing b
 func TestC19(t *testing.T) {
 	st := stats.New("C19", "exploration", multiGen+"; after every step a drawn read of a drawn ledger, and at the end every read of every ledger (transactions, accounts+volumes, volumes, aggregated balances, logs, with PIT when available) is compared with that ledger's own reference model; non-trivial = >= 3 ledgers with >= 1 joining the shared bucket after writes, and >= 4 commits; distinct = by operation histories", assumePgsim)
 	defer st.Write(t)
-	n := stats.N(150, 500)
+	n := stats.N(400, 900)
 	st.Set("requested_checks", n)
 	stats.Check(t, n, 19, func(rt *rapid.T) {
 		// any per-ledger read discrepancy in a multi-ledger world is an isolation failure
@@ -206,7 +206,7 @@ func TestC14(t *testing.T) {
 	st := stats.New("C14", "exploration", multiGen+", biased to a pool of 4 references; a create reusing a reference of the same ledger must fail with the reference-conflict error and leave no trace, the same reference on another ledger must be accepted; at most one transaction per (ledger, reference) is ever listed; non-trivial = >= 1 conflict within a ledger and >= 1 reuse across ledgers; distinct = by operation histories", assumePgsim,
 		"sequential part; concurrent creators are covered by the scheduler-driven check of this property when present")
 	defer st.Write(t)
-	n := stats.N(150, 500)
+	n := stats.N(400, 900)
 	st.Set("requested_checks", n)
 	stats.Check(t, n, 14, func(rt *rapid.T) {
 		w, sum := runMulti(rt, st, []string{"C14"}, false)
@@ -232,7 +232,7 @@ func TestC16(t *testing.T) {
 	st := stats.New("C16", "exploration", multiGen+"; transaction and log ids of every ledger must be unique and increase in commit order, and — because per-ledger sequences only skip values on rolled-back writes of that same ledger — must be consecutive whenever no write of that ledger failed in between, whatever happens on the other ledgers of the bucket; non-trivial = >= 3 ledgers, >= 6 commits and >= 1 failed write; distinct = by operation histories", assumePgsim,
 		"sequences and unique indexes are the stand-in's; what is decided is that the Go code draws ids from per-ledger sequences and re-synchronises them")
 	defer st.Write(t)
-	n := stats.N(150, 500)
+	n := stats.N(400, 900)
 	st.Set("requested_checks", n)
 	stats.Check(t, n, 16, func(rt *rapid.T) {
 		w, sum := runMulti(rt, st, []string{"C16"}, true)
